@@ -164,7 +164,7 @@ func genDSC(t *rt.Tape, label string, source string, binaries []string, deps dep
 		d.Origin = "debian"
 	}
 	d.Maintainer = uploaderPool[t.Draw(len(uploaderPool), label+".maint")]
-	d.Uploaders = genSubset(t, uploaderPool, 0, 3, label+".upl")
+	d.Uploaders = genSubset(t, uploaderPool, 0, 6, label+".upl")
 	d.UplStyle = listStyle(t.Weighted([]int{3, 2}, label+".uplstyle"))
 	if t.Bool(1, 2, label+".home") {
 		d.Homepage = "https://example.org/" + source
@@ -331,7 +331,7 @@ func genControlFile(t *rt.Tape, label string) mControlFile {
 	c := mControlFile{}
 	o := depOpts{Substvars: true, Stages: true, MaxRels: 3}
 	c.Src = mSrcPara{Source: genPkgName(t, label+".src"), Maintainer: uploaderPool[t.Draw(len(uploaderPool), label+".maint")]}
-	c.Src.Uploaders = genSubset(t, uploaderPool, 0, 3, label+".upl")
+	c.Src.Uploaders = genSubset(t, uploaderPool, 0, 6, label+".upl")
 	c.Src.UplStyle = genStyle(t, label+".uplstyle")
 	if t.Bool(2, 3, label+".prio") {
 		c.Src.Priority = "optional"
